@@ -671,7 +671,10 @@ def unwrap(sig, max_delta=pi, step=2*pi):
 
   """
   idata = iter(sig)
-  d0 = next(idata)
+  try:
+    d0 = next(idata)
+  except StopIteration: # Empty input (PEP 479: can't leak from a generator)
+    return
   yield d0
   delta = d0 - d0 # Get the zero (e.g., integer, float) from data
   for d1 in idata:
